@@ -1010,6 +1010,8 @@ WF(S) ==
           S.conns[c].nick # <<>> /\ S.conns[c].nick[1] \in DOMAIN S.users
     /\ \A n \in DOMAIN S.users : \A x \in S.users[n].chans :
           x \in DOMAIN S.chans /\ n \in DOMAIN S.chans[x].members
-    /\ \A x \in DOMAIN S.chans : \A n \in DOMAIN S.chans[x].members : n \in DOMAIN S.users
+    /\ \A x \in DOMAIN S.chans : \A n \in DOMAIN S.chans[x].members : n \in DOMAIN S.users /\ x \in S.users[n].chans
+    /\ \A x \in DOMAIN S.chans : \A r \in RankSet : S.chans[x].rs[r] \subseteq DOMAIN S.chans[x].members
     /\ \A n \in DOMAIN S.users : S.users[n].host \in DOMAIN S.conns
+    /\ S.wallops \subseteq DOMAIN S.users
 =============================================================================
